@@ -335,10 +335,11 @@ def fault_table(prog: Program, rep: Report) -> None:
     ifs = find_ifs(tk, lambda t: "time_reversal" in unparse(t) and "duration" in unparse(t) and isinstance(t, ast.Compare) and isinstance(t.ops[0], ast.NotEq))
     ok_operand = False
     for g in ifs:
-        rhs = g.test.comparators[0]
-        n = cmp_norm(rhs) if isinstance(rhs, ast.Compare) else None
-        if n and n[0] == "duration" and n[1] == "<":
-            ok_operand = True
+        # the flag is compared with (duration < 0), whichever of the two stands on the left
+        for side in (g.test.left, g.test.comparators[0]):
+            n = cmp_norm(side) if isinstance(side, ast.Compare) else None
+            if n and n[0] == "duration" and n[1] == "<":
+                ok_operand = True
     guard(rep, prog, rule, tk, "stop on the wrong side of start for the chosen direction", ifs if ok_operand else [], "no guard `time_reversal != (stop - start < 0)`")
     dur = [n for n in walk_no_nested(tk.node) if isinstance(n, ast.Assign) and unparse(n.targets[0]) == "duration"]
     rep.check(rule, tk.qual, "duration = stop - start", bool(dur) and unparse(dur[0].value) == "self.stop_time - self.start_time", what_bad=f"duration is {unparse(dur[0].value) if dur else None}", what_ok="stop - start", loc=tk.loc())
